@@ -217,3 +217,59 @@ def inline_locals_multi(fn: ast.AST, e: ast.expr, depth: int = 4, _stack: Sequen
             return node
 
     return T().visit(clone(e))
+
+
+def subst(e: ast.expr, mapping: "dict[str, ast.expr]") -> ast.expr:
+    """Replace loaded Names by expressions (on a clone)."""
+    class T(ast.NodeTransformer):
+        def visit_Name(self, node: ast.Name) -> ast.AST:
+            if isinstance(node.ctx, ast.Load) and node.id in mapping:
+                return clone(mapping[node.id])
+            return node
+    return T().visit(clone(e))
+
+
+def bind_args(fn_node: ast.AST, call: ast.Call, skip_self: bool = False) -> "Optional[dict[str, ast.expr]]":
+    """Bind call arguments to the parameters of fn_node (defaults included). None when *args/**kwargs are involved."""
+    a = fn_node.args  # type: ignore[attr-defined]
+    if a.vararg or a.kwarg or any(isinstance(x, ast.Starred) for x in call.args) or any(k.arg is None for k in call.keywords):
+        return None
+    pos = [x.arg for x in a.posonlyargs + a.args]
+    if skip_self and pos:
+        pos = pos[1:]
+    out: "dict[str, ast.expr]" = {}
+    if len(call.args) > len(pos):
+        return None
+    for name, v in zip(pos, call.args):
+        out[name] = v
+    allnames = pos + [x.arg for x in a.kwonlyargs]
+    for k in call.keywords:
+        if k.arg not in allnames or k.arg in out:
+            return None
+        out[k.arg] = k.value
+    defaults = dict(zip([x.arg for x in (a.posonlyargs + a.args)][len(a.posonlyargs + a.args) - len(a.defaults):], a.defaults))
+    for x, d in zip(a.kwonlyargs, a.kw_defaults):
+        if d is not None:
+            defaults[x.arg] = d
+    for n in allnames:
+        if n not in out:
+            if n in defaults:
+                out[n] = defaults[n]
+            else:
+                return None
+    return out
+
+
+def summary_expr(fn_node: ast.AST) -> Optional[ast.expr]:
+    """For a helper whose body is assignments followed by one return: the returned expression with locals inlined."""
+    b = body_of(fn_node)
+    rets = returns_in(fn_node)
+    # exception-translation wrapper: `try: <body> except X: raise Y` is its body
+    if len(b) == 1 and isinstance(b[0], ast.Try) and not b[0].orelse and not b[0].finalbody and all(always_raises(h.body) for h in b[0].handlers):
+        b = list(b[0].body)
+    if len(rets) != 1 or not b or b[-1] is not rets[0] or rets[0].value is None:
+        return None
+    for st in b[:-1]:
+        if not isinstance(st, (ast.Assign, ast.AnnAssign)):
+            return None
+    return inline_locals(fn_node, rets[0].value, depth=6)
